@@ -129,7 +129,7 @@ def get_curve(E, st, cid):
         G = mk_obj(st, ECCXPOINT, _curve=curve, curve=SK.CURVE_CANONICAL[cid],
                    _point=mk_obj(st, rawapi.SMARTPTR, _raw_pointer=np_, _destructor=SStr('<free_point>')))
     else:
-        np_ = rawapi.new_native(st, NPOINT, g_cid=cid, g_pt=SG.pt(SK.CURVE_GX[cid], gy))
+        np_ = rawapi.new_native(st, NPOINT, g_cid=cid, g_pt=uf(E, st, 'spec.ecgroup.pt', SK.CURVE_GX[cid], gy))
         G = mk_obj(st, ECCPOINT, _curve=curve, curve=SK.CURVE_CANONICAL[cid],
                    _point=mk_obj(st, rawapi.SMARTPTR, _raw_pointer=np_, _destructor=SStr('<free_point>')))
     st.heap[curve.oid].fields['G'] = G
@@ -222,7 +222,7 @@ def m_new_point(cid):
                           {'out': out, 'x': xb, 'y': yb, 'n': ln, 'ctx_ok': _ctx_ok(st, cid, ctx)})
         x = mk_int(_models.be_value(E, st, zbytes(rawapi.buf_data(st, xb))))
         y = mk_int(_models.be_value(E, st, zbytes(rawapi.buf_data(st, yb))))
-        P = mk_int(zint(x) * SG.M + zint(y))
+        P = uf(E, st, 'spec.ecgroup.pt', x, y)
         ok_t = zbool(uf(E, st, 'spec.ecgroup.valid', cid, P))
         good, bad = E.split(st, ok_t)
         outs = []
@@ -349,9 +349,11 @@ def install_point_classes(reg, cid):
     if mont:
         reg.add(ClassContract(rawapi.SMARTPTR, fields={'_raw_pointer': 'obj:' + XPOINT, '_destructor': 'any'}))
         reg.add(ClassContract(ECCXPOINT, fields={'_curve': make_curve, 'curve': ('const', canonical), '_point': 'obj:' + rawapi.SMARTPTR}))
+        reg.add(ClassContract(ECCPOINT, fields={}))       # no two-coordinate point exists on a Montgomery curve (constructor refuses)
     else:
         reg.add(ClassContract(rawapi.SMARTPTR, fields={'_raw_pointer': 'obj:' + NPOINT, '_destructor': 'any'}))
         reg.add(ClassContract(ECCPOINT, fields={'_curve': make_curve, 'curve': ('const', canonical), '_point': 'obj:' + rawapi.SMARTPTR}))
+        reg.add(ClassContract(ECCXPOINT, fields={}))      # no x-only point exists on a two-coordinate curve (constructor refuses)
 
 
 def install_random(reg):
@@ -371,12 +373,13 @@ def add_number(reg):
     reg.add(Contract(N + 'bytes_to_long', params={'s': 'bytes'}, returns='be(bytes(s))', pure=True, modifies=[], options={'exact': True},
                      assumed='OS2IP; bounded: bounded/number.py against int.from_bytes'))
     reg.add(Contract(N + 'long_to_bytes', params={'n': 'int', 'blocksize': 'int'},
-                     raises={'ValueError': ('iff', 'spec.keys.ival(n) < 0 or blocksize < 0')}, result='bytes',
+                     raises={'ValueError': ('iff', 'disj(spec.keys.ival(n) < 0, blocksize < 0)')}, result='bytes',
                      ensures={'value': 'be(result) == spec.keys.ival(n)',
                               'minimal': 'blocksize == 0 ==> (len(result) >= 1 and (spec.keys.ival(n) == 0 ==> result == bytes(1)) and (spec.keys.ival(n) > 0 ==> result[0] != 0))',
-                              'blocks': 'blocksize > 0 ==> (len(result) % blocksize == 0 and len(result) >= blocksize)',
-                              'fits': '(blocksize > 0 and spec.keys.ival(n) < pow2(8 * blocksize)) ==> len(result) == blocksize',
-                              'too_large': '(blocksize > 0 and spec.keys.ival(n) >= pow2(8 * blocksize)) ==> len(result) > blocksize'},
+                              'blocks': 'imp(blocksize > 0, len(result) >= blocksize)',
+                              'fits': 'imp(conj(blocksize > 0, spec.keys.ival(n) < pow2(8 * blocksize)), len(result) == blocksize)',
+                              'too_large': 'imp(conj(blocksize > 0, spec.keys.ival(n) >= pow2(8 * blocksize)), len(result) > blocksize)',
+                              'cpython_len': 'len(result) < 9223372036854775808'},
                      pure=True, modifies=[],
                      assumed='I2OSP, left-padded to a multiple of blocksize; bounded: bounded/number.py against int.to_bytes'))
 
